@@ -170,9 +170,7 @@ func (ev *SpecEval) bin(x *SBin) (TV, error) {
 	case "==", "!=":
 		a, b = ev.unifyNil(a, b)
 		var eq string
-		if a.Typ != nil && isFloat(a.Typ) {
-			eq = "(f_eq " + a.T + " " + b.T + ")"
-		} else if _, isSl := typUnder(a.Typ).(*types.Slice); isSl && (b.T == "nil_slice" || a.T == "nil_slice") {
+		if _, isSl := typUnder(a.Typ).(*types.Slice); isSl && (b.T == "nil_slice" || a.T == "nil_slice") {
 			o := a.T
 			if a.T == "nil_slice" {
 				o = b.T
@@ -537,7 +535,10 @@ func (ev *SpecEval) call(x *SCall) (TV, error) {
 		if id, isId := sel.X.(*SIdent); !(isId && ev.isPkgName(id.Name)) {
 			return ev.methodCall(sel, x.Args)
 		}
-		// pkg.Func(args): only spec-visible pure repo funcs are allowed via contracts -> unsupported
+		// pkg.specfun(args)
+		if _, ok := c.sp.SpecFuns[sel.Sel]; ok {
+			return ev.call(&SCall{Fun: &SIdent{sel.Sel}, Args: x.Args, TypeArg: x.TypeArg})
+		}
 		return TV{}, fmt.Errorf("call of %s not allowed in specs (use a spec fun)", x.Fun)
 	}
 	id, ok := x.Fun.(*SIdent)
@@ -628,6 +629,8 @@ func (ev *SpecEval) call(x *SCall) (TV, error) {
 		return TV{T: "(" + id.Name + " " + args[0].T + ")", Typ: tInt}, nil
 	case "fits64":
 		return TV{T: "(fits64 " + args[0].T + ")", Typ: tBool}, nil
+	case "feq":
+		return TV{T: "(f_eq " + args[0].T + " " + args[1].T + ")", Typ: tBool}, nil
 	case "i2f":
 		return TV{T: "(i2f " + args[0].T + ")", Typ: types.Typ[types.Float64]}, nil
 	case "fdiv", "fadd", "fsub", "fmul":
@@ -791,15 +794,18 @@ func (c *Ctx) specFunDecls() string {
 // emitAxioms evaluates the package axioms in the entry state (they may only mention
 // immutable spec-level functions and globals) and asserts them.
 func (c *Ctx) emitAxioms(st *State) {
-	// defined spec funs become quantified definitional axioms
+	// defined spec funs: declared first (so definitions may refer to each other), then their
+	// definitional axioms
+	type pend struct {
+		sf *SpecFun
+	}
+	var pending []*SpecFun
 	for _, n := range sortedKeys(c.sp.SpecFuns) {
 		sf := c.sp.SpecFuns[n]
 		if sf.Body == nil {
 			continue
 		}
-		ev := c.newSpecEval(nil, st, st)
-		ev.pkg = sf.Pkg
-		var decls, args []string
+		var ps []string
 		okAll := true
 		for _, p := range sf.Params {
 			t, err := c.w.LookupType(p.Type, sf.Pkg)
@@ -807,23 +813,39 @@ func (c *Ctx) emitAxioms(st *State) {
 				okAll = false
 				break
 			}
-			q := c.fresh("a_" + p.Name)
-			ev.bound[p.Name] = TV{T: q, Typ: t}
-			decls = append(decls, fmt.Sprintf("(%s %s)", q, c.sorts.Of(t)))
-			args = append(args, q)
+			ps = append(ps, c.sorts.Of(t))
 		}
 		rt, err := c.w.LookupType(sf.Result, sf.Pkg)
 		if err != nil || !okAll {
 			c.unsupportedf("spec fun %s: bad types", n)
 			continue
 		}
+		c.lines = append(c.lines, fmt.Sprintf("(declare-fun %s (%s) %s)", n, strings.Join(ps, " "), c.sorts.Of(rt)))
+		pending = append(pending, sf)
+	}
+	for _, sf := range pending {
+		n := sf.Name
+		ev := c.newSpecEval(nil, st, st)
+		ev.pkg = sf.Pkg
+		var decls, args []string
+		for _, p := range sf.Params {
+			t, _ := c.w.LookupType(p.Type, sf.Pkg)
+			q := c.fresh("a_" + p.Name)
+			ev.bound[p.Name] = TV{T: q, Typ: t}
+			decls = append(decls, fmt.Sprintf("(%s %s)", q, c.sorts.Of(t)))
+			args = append(args, q)
+		}
+		c.specDepth++
+		savedErr := c.specErr
+		c.specErr = ""
 		body, err := ev.eval(sf.Body)
-		if err != nil {
-			c.unsupportedf("spec fun %s: %v", n, err)
+		bad := c.specErr
+		c.specErr = savedErr
+		c.specDepth--
+		if err != nil || bad != "" {
+			c.unsupportedf("spec fun %s: %v %s", n, err, bad)
 			continue
 		}
-		// declared as uninterpreted + definitional axiom (allows recursion)
-		c.lines = append(c.lines, fmt.Sprintf("(declare-fun %s (%s) %s)", n, strings.Join(sortsOfDecls(decls), " "), c.sorts.Of(rt)))
 		if len(args) == 0 {
 			c.lines = append(c.lines, fmt.Sprintf("(assert (= %s %s))", n, body.T))
 		} else {
